@@ -37,10 +37,14 @@ func vhBuildTree(g *vhDigits, depth, maxw int, label string) Stack {
 	cfg, _ := s.config()
 	// Traverse only reads: no option other than the two index options may matter
 	cfg.opt = cfgFlag(nondetUint16()) & vhOptMask
-	if g.next(5) == 0 {
+	switch g.next(5) {
+	case 0:
 		// a validity policy that rejects the node: Index does not care, so
 		// neither may Traverse
 		cfg.vpf = func(...any) error { return errorf("rejected by policy") }
+	case 1:
+		// an error some earlier call left behind
+		cfg.err = errorf("left behind")
 	}
 	w := 1 + g.next(maxw)
 	for i := 0; i < w; i++ {
